@@ -634,8 +634,7 @@ def gen_cols_case(rng):
     modes = [cols_full_mode(fl, limit(), int(rng.random() < 0.5), int(rng.random() < 0.5),
                             col=int(rng.random() < 0.6), bo=int(rng.random() < 0.3))]
     for _ in range(2):
-        # -o / --vimgrep with a limit are modelled for the line-oriented paths only
-        lineonly = not fl["multiline"]
+        lineonly = True
         m = mstd(heading=rng.random() < 0.3, path=rng.random() < 0.8, pm=lineonly and rng.random() < 0.2,
                  pm1=rng.random() < 0.5, col=rng.random() < 0.5, bo=rng.random() < 0.4, stats=rng.random() < 0.2,
                  ss=rng.choice([None, b"", b"=="]), sc=rng.choice([None, b"--"]), sm=rng.choice([b":", b"|"]),
@@ -666,6 +665,11 @@ def cols_corpus():
         mk("x", L, ["x🇩🇪🇩🇪é\n xééx\n".encode()], (2, 1, 0), (3, 1, 1), (4, 1, 0), (1, 1, 1)),
         mk("x", dict(L, after=1), [b"x\xff\xff\xff\n  \xe2\x82 long context line\n"], (2, 1, 1), (2, 0, 0)),
         mk(r"a\n *b", dict(L, multiline=1), [b"  xa\n   b and more\nz\n"], (4, 1, 1), (4, 0, 0), (None, 0, 1)),
+        # -U -o and -U --vimgrep with a limit (the printer's only_matching_max_columns_multi_line tests' shape)
+        dict(pattern=r"a+\n *b+", flags=dict(L, multiline=1), files=[(NAMES[0], b"  xaaaaaaaa\n   bbbbbb and more\nz aa\nb\n")],
+             modes=[dict(mstd(only=1, col=1), maxcol=mc, preview=pv, trim=tr) for mc, pv, tr in ((5, 0, 0), (5, 1, 1), (3, 1, 0))]
+             + [dict(mstd(pm=1, pm1=p1, col=1), maxcol=mc, preview=pv, trim=tr)
+                for mc, pv, tr, p1 in ((5, 0, 0, 1), (5, 1, 1, 1), (5, 1, 0, 0), (12, 0, 1, 1))]),
     ]
 
 
@@ -731,10 +735,12 @@ def cols_cli_check(ctx, c, real):
     """the rg binary with -M / --max-columns-preview / --trim against the library printer's first mode"""
     fl = c["flags"]
     m = c["modes"][0]
-    if any(b"\x00" in d for _, d in c["files"]):
+    if any(b"\x00" in d for _, d in c["files"]) or m["pm"]:
         return
     args = pl.cli_flags(fl) + ["--sort", "path", "--with-filename", "--no-heading", "-n" if fl.get("line_number") else "-N",
                                ctx.rng.choice(["--mmap", "--no-mmap"])]
+    if m["only"]:
+        args.append("-o")
     if m["col"]:
         args.append("--column")
     else:
@@ -782,7 +788,7 @@ def run_cols_batch(ctx, cases, cli_every):
             elif v[0] == 1:
                 ctx.cov["rejected_patterns"] = ctx.cov.get("rejected_patterns", 0) + 1
             else:
-                # 2: the real searcher failed; 3: the generator produced a configuration outside the model
+                # 2: the real searcher failed
                 ctx.violation("the harness could not run a generated --max-columns/--trim case (status %d)" % v[0],
                               dict(kind=901, line=lines[i], c=cols_jsonable(cases[i])), nfi=True)
         parsed.append(v)
@@ -852,6 +858,10 @@ def directed_cols_findings(ctx):
     rc, u, _ = pl.rg(["-M", "2", "--max-columns-preview", "--column", "foo"], vlib.CACHE, stdin=b"foo xxxxxxxx\n")
     if b"0 more matches" in u and b"0 more matches" not in t:
         ctx.known("PreviewCountUnderTrim", "--trim: %r, the same line without the blanks: %r" % (t, u))
+    rc, v5, _ = pl.rg(["-U", "--vimgrep", "-M", "5", r"a+\nb"], vlib.CACHE, stdin=b"aaaaaaaaaa\nb\n")
+    rc, v50, _ = pl.rg(["-U", "--vimgrep", "-M", "50", r"a+\nb"], vlib.CACHE, stdin=b"aaaaaaaaaa\nb\n")
+    if v50.count(b"\n") == 1 and v5.count(b"\n") == 2:
+        ctx.known("VimgrepOneLineLostOnLongLine", "-M 5: %r, -M 50: %r" % (v5, v50))
     # colours are outside the model; this one is observed on the binary only
     rc, plain, _ = pl.rg(["--trim", "-M", "5", "-N", "abc"], vlib.CACHE, stdin=b"      abc\n")
     p = subprocess.run([vlib.RG, "--no-config", "--color", "always", "--trim", "-M", "5", "-N", "abc"], cwd=vlib.CACHE,
